@@ -204,21 +204,28 @@ package rtsp
 //@ import "fmt"
 //@ extern func utils.CanonicalPath(p string) (r string)
 //@   modifies
+// assumed (fmt, net/url): a format that ends in literal text gives a non-empty string; a URL with a port has a host; a
+// URL with a host prints as a non-empty string
 //@ extern func fmt.Sprintf(format string, a ...interface{}) (r string)
 //@   modifies
+//@   ensures format == "%s:554" ==> len(r) >= 4
 //@ extern func (u *url.URL) Port() (p string)
 //@   modifies
+//@   ensures len(p) > 0 ==> len(u.Host) > 0
 //@ extern func (u *url.URL) String() (r string)
 //@   modifies
+//@   ensures u != nil && len(u.Host) > 0 ==> len(r) > 0
 //@ extern func strings.LastIndex(s string, substr string) (i int)
 //@   modifies
 //@ func (s *Session) parseSdp(rawSdp string) (err error)
 //@   trusted
 //@   requires s != nil
 //@   modifies s.rawSdp, s.sdp, s.aControl, s.vControl, s.aCodec, s.vCodec, misc(s)
-//@ func getControlPath(ctrl string) (path string, err error)
-//@   trusted
+//@ extern func (u *url.URL) Hostname() (h string)
 //@   modifies
+//@ func getControlPath(ctrl string) (path string, err error)
+//@   modifies
+//@   ensures len(ctrl) == 0 ==> err == nil && len(path) == 0
 //@ func (t *RTPTransport) ParseTransport(rtpType int, ts string) (err error)
 //@   trusted
 //@   requires t != nil
@@ -260,6 +267,10 @@ package rtsp
 //@   ensures s.status != old(s.status) && s.mode == RecordSession ==> s.transport.Type == RTPTCPUnicast && pushOK(s)
 //@   ensures s.status != old(s.status) && s.mode != RecordSession ==> pullOK(s)
 //@   ensures old(s.mode) != UnknownSession ==> s.mode == old(s.mode)
+// only a track that DESCRIBE / ANNOUNCE negotiated can be set up: without a control path from an SDP no transport is
+// parsed and the session does not become ready
+//@   assert[call:ParseTransport] len(s.aControl) > 0 || len(s.vControl) > 0
+//@   ensures s.status != old(s.status) ==> len(s.aControl) > 0 || len(s.vControl) > 0
 
 // the method-order check: a method that is not legal in the current state is answered 455 here, before any
 // authentication or handler runs, and nothing of the session changes; OPTIONS and TEARDOWN are always answered
@@ -408,6 +419,8 @@ package rtsp
 // SETUP url: relative control attributes are joined to the base URL for every base path (also an empty one)
 //@ extern func url.Parse(rawurl string) (u *url.URL, err error)
 //@   modifies
+//@   freshornil u
+//@   ensures err == nil ==> u != nil
 //@ extern func strings.EqualFold(s string, t string) (b bool)
 //@   modifies
 //@ func (c *PullClient) getSetupURL(ctrl string) (setupURL *url.URL, err error)
